@@ -68,4 +68,19 @@ example : crc32 0 [49, 50, 51, 52, 53, 54, 55, 56, 57] = 0xCBF43926 := by decide
 -- all-0xFF worst case: 5553 bytes (past the classic 5552 NMAX boundary) needs no overflow argument in the spec
 example : adler32 1 (List.replicate 3 255) = ((1+255) + (1+510) + (1+765)) * 65536 + 766 := by decide +kernel
 
+/-- Any number of incremental updates: feeding the chunks `c, cs…` one call after the other, each
+    call starting from the previous result, gives the one-pass checksum of their concatenation. -/
+theorem adler32_chunks (init : Nat) (c : List UInt8) (cs : List (List UInt8)) :
+    cs.foldl adler32 (adler32 init c) = adler32 init (c ++ cs.flatten) := by
+  induction cs generalizing c with
+  | nil => simp
+  | cons d t ih => rw [List.foldl_cons, adler32_append, ih, List.flatten_cons, List.append_assoc]
+
+theorem crc32_chunks (init : Nat) (c : List UInt8) (cs : List (List UInt8)) :
+    cs.foldl crc32 (crc32 init c) = crc32 init (c ++ cs.flatten) := by
+  induction cs generalizing c with
+  | nil => simp
+  | cons d t ih => rw [List.foldl_cons, crc32_append, ih, List.flatten_cons, List.append_assoc]
+
+example : [[2, 3], [], [4]].foldl adler32 (adler32 1 [1]) = adler32 1 [1, 2, 3, 4] := by decide +kernel
 end C16
